@@ -36,4 +36,4 @@ Extraction "model.ml"
   Model.Search.first_bad_class
   Model.Proj.proj_wit Model.Proj.proj_best Model.Proj.proj_chain7 Model.Proj.proj_rankp Model.Proj.proj_shiftinv
   Model.Proj.proj_hrkey Model.Proj.proj_sortp Model.Proj.proj_vrank Model.Proj.proj_hrself Model.Proj.proj_perm5
-  Model.Proj.proj_relabel Model.Proj.proj_bcsetp.
+  Model.Proj.proj_relabel Model.Proj.proj_bcsetp Model.Proj.proj_vsame.
